@@ -65,6 +65,15 @@ def compare_step(acc: Acc, case: dict, engine, recipe: dict, pipe: Pipeline, row
         acc.violate("process-raises", {"type": type(ex).__name__, **sig_extra}, case, want, f"{type(ex).__name__}: {ex}",
                     f"Engine.process() raised {type(ex).__name__}: {str(ex)[:120]} at {row}")
         return False
+    if not any(o.get("lock_previous") for o in recipe["outputs"]) and not any(t["cls"] == "Function" for o in recipe["outputs"] for t in o["terms"]):
+        first = [fl.Op.str(ov.value) for ov in engine.output_variables]
+        first_f = observe_fuzzy(engine)
+        engine.process()
+        acc.transitions += 1
+        if [fl.Op.str(ov.value) for ov in engine.output_variables] != first or observe_fuzzy(engine) != first_f:
+            acc.violate("not-repeatable", {**sig_extra}, case, first, [fl.Op.str(ov.value) for ov in engine.output_variables],
+                        f"processing the same inputs {row} twice gives different outputs or fuzzy outputs")
+            return False
     sampled = sampled_vectors(engine)
     trace = pipe.step(inputs, sampled)
     acc.traces += 1
